@@ -176,6 +176,8 @@ def _evaluate_require(ast, file_path, package_lua, lua_path=None):
                 game_loop_stats = [
                     s for s in reqd_lua.root.stats
                     if isinstance(s, parser.StatFunction) and
+                    len(s.funcname.namepath) == 1 and
+                    s.funcname.methodname is None and
                     s.funcname.namepath[0].value in GAME_LOOP_FUNCTION_NAMES]
                 if game_loop_stats:
                     # Remove the functions' tokens and parse what is left.
